@@ -34,6 +34,11 @@ pub mod algorithm {
 pub mod engine;
 pub mod rate;
 
+#[cfg(feature = "verif-hooks")]
+#[doc(hidden)]
+#[allow(missing_docs)]
+pub mod verif_hooks;
+
 // ======================================================================
 // Error - PUBLIC
 
